@@ -46,7 +46,7 @@ COMPONENTS = {
     "stub": ["SimRepository (AbstractSchemaRepository subclass, in memory, logs loads)"],
     "oracle": ["inline-at-first-use schema built by the generator, parsed with parse_schema", "bytes of a generated datum under both schemas"],
 }
-PROBES = ["diamond", "cross_namespace_edge", "relative_spelling", "depth_ge3", "ref_in_array", "ref_in_map",
+PROBES = ["repository_object_reused", "diamond", "cross_namespace_edge", "relative_spelling", "depth_ge3", "ref_in_array", "ref_in_map",
           "ref_in_union", "missing_file_fault", "ordered_load", "null_namespace_graph", "enum_or_fixed_leaf", "depth_ge5"]
 PRIMS = ["int", "string", "boolean", "double", "bytes", "long"]
 
@@ -333,6 +333,22 @@ def run_one(ch, ctx):
             raise Violation("equivalence", "load-raises", detail={"how": "simrepo", "exc": jsonable(e)}, scenario=desc)
         check_loaded(p, "load_schema/SimRepository")
         ctx.stat("repo_loads", len(log))
+        # ---- one repository OBJECT reused for several loads (first a dependency, then the top type) ----
+        if len(g.reach) > 1 and ch.chance(40):
+            from fastavro.repository import FlatDictRepository
+            ctx.probe("repository_object_reused")
+            repo = FlatDictRepository(tmp)
+            firsts = [g.types[i]["full"] for i in ch.shuffle(sorted(g.reach))[:1 + ch.draw(2)] if g.types[i]["full"] != top]
+            for nm in firsts:
+                try:
+                    F.schema.load_schema(nm, repo=repo)
+                except Exception as e:  # noqa
+                    raise Violation("equivalence", "load-raises", detail={"how": "shared-repository-object", "name": nm, "exc": jsonable(e)}, scenario=desc)
+            try:
+                p = F.schema.load_schema(top, repo=repo)
+            except Exception as e:  # noqa
+                raise Violation("equivalence", "load-raises", detail={"how": "shared-repository-object", "loaded_before": firsts, "exc": jsonable(e)}, scenario=desc)
+            check_loaded(p, {"load_schema/one FlatDictRepository object, loaded before": firsts})
         # ---- ordered: seeded linear extension ---------------------------------------------
         order = g.linear_extension()
         paths = [os.path.join(tmp, g.types[i]["full"] + ".avsc") for i in order]
